@@ -1,7 +1,12 @@
 package main
 
 import (
+	"context"
+	"net"
 	"os"
+
+	"github.com/streamingfast/bstream/blockstream"
+	"google.golang.org/grpc"
 	"github.com/streamingfast/shutter"
 	"go.uber.org/zap"
 	"errors"
@@ -612,6 +617,82 @@ func suiteShutdown(o *Out, r *Rng, n int, tier string) {
 			}
 			finish(o, "hubsub/"+where, src, done, l, nil, "")
 			fh.Shutdown(nil)
+		}
+		// ---- blockstream.Source: the gRPC client of a block stream server (a real in-process server on a loopback port;
+		// "unreachable": nothing listens on the port, the source is still waiting for its endpoint when Shutdown comes)
+		for _, where := range []string{"before-run", "unreachable", "in-handler", "async"} {
+			l := &handlerLog{failAtK: -1}
+			var src *blockstream.Source
+			lis, err := net.Listen("tcp", "127.0.0.1:0")
+			if err != nil {
+				o.Op("grpc/" + where)
+				o.Impl("grpc/%s no-loopback-listener", where)
+				continue
+			}
+			addr := lis.Addr().String()
+			var gs *grpc.Server
+			var srv *blockstream.Server
+			if where == "unreachable" {
+				lis.Close()
+			} else {
+				gs = grpc.NewServer()
+				srv = blockstream.NewUnmanagedServer()
+				pbbstream.RegisterBlockStreamServer(gs, srv)
+				go gs.Serve(lis)
+			}
+			if where == "in-handler" {
+				l.onCall = func(k int) {
+					if k == 1 {
+						src.Shutdown(errors.New("shutdown in handler"))
+					}
+				}
+			}
+			src = blockstream.NewSource(context.Background(), addr, 0, l.handler(), blockstream.WithLogger(nopLog))
+			if where == "before-run" {
+				src.Shutdown(errors.New("shutdown before run"))
+			}
+			done := make(chan struct{})
+			go func() { src.Run(); close(done) }()
+			stopPush := make(chan struct{})
+			if srv != nil {
+				go func() {
+					for x := uint64(1); ; x++ {
+						select {
+						case <-stopPush:
+							return
+						case <-time.After(2 * time.Millisecond):
+							srv.PushBlock(TBlock{ID: fmt.Sprintf("%da", x), Parent: fmt.Sprintf("%da", x-1), Num: x}.pb())
+						}
+					}
+				}()
+			}
+			callsAtLeast := func(n int) bool {
+				l.mu.Lock()
+				defer l.mu.Unlock()
+				return l.calls >= n
+			}
+			switch where {
+			case "unreachable":
+				time.Sleep(60 * time.Millisecond)
+				src.Shutdown(errors.New("shutdown while connecting"))
+			case "async":
+				for t0 := time.Now(); !callsAtLeast(2) && time.Since(t0) < 5*time.Second; {
+					time.Sleep(2 * time.Millisecond)
+				}
+				src.Shutdown(errors.New("async shutdown"))
+			case "in-handler":
+				for t0 := time.Now(); !src.IsTerminating() && time.Since(t0) < 5*time.Second; {
+					time.Sleep(2 * time.Millisecond)
+				}
+				if !src.IsTerminating() {
+					src.Shutdown(errors.New("late shutdown"))
+				}
+			}
+			finish(o, "grpc/"+where, src, done, l, nil, "")
+			close(stopPush)
+			if gs != nil {
+				gs.Stop()
+			}
 		}
 		// ---- file source
 		for _, where := range []string{"before-run", "in-handler", "async", "while-waiting-for-a-file"} {
